@@ -217,10 +217,10 @@ theorem mergeLp_lpinv {s s' : St} {l : List (Nat × Nat)} {t : LkTok} {o : Out}
   have := hi.c
   simp only [if_true]; omega
 
-theorem mergeFarm_lpinv {s s' : St} {farm : Nat} {l : List (Nat × Nat)} {mf : Nat × Nat}
+theorem mergeFarmCore_lpinv {s s' : St} {farm : Nat} {l : List (Nat × Nat)} {mf : Nat × Nat}
     {t : LkTok} {stray : List LkTok} {o : Out} (hi : LpInv s) (hok : sumX l ≤ mf.2)
-    (h : mergeFarm s farm l mf t stray = some (s', o)) : LpInv s' := by
-  simp only [mergeFarm, Option.bind_eq_bind, Option.bind_eq_some_iff, req_eq_some,
+    (h : mergeFarmCore s farm l mf t stray = some (s', o)) : LpInv s' := by
+  simp only [mergeFarmCore, Option.bind_eq_bind, Option.bind_eq_some_iff, req_eq_some,
     Option.pure_def] at h
   obtain ⟨_, _, ⟨f0, x0⟩, _, r0, hr0, ⟨s1, sp⟩, h1, h⟩ := h
   obtain ⟨hc1, hlp1, hfle1, hsp⟩ := takeFs_lp hi.fle h1
@@ -252,6 +252,16 @@ theorem mergeFarm_lpinv {s s' : St} {farm : Nat} {l : List (Nat × Nat)} {mf : N
     rw [hc1, hlp1]
     have := hi.c
     simp only [Bool.false_eq_true, if_false]; omega
+
+theorem mergeFarm_lpinv {s s' : St} {farm : Nat} {l : List (Nat × Nat)} {mf : Nat × Nat}
+    {t : LkTok} {rew : Option LkTok} {stray : List LkTok} {o : Out} (hi : LpInv s)
+    (hok : sumX l ≤ mf.2) (h : mergeFarm s farm l mf t rew stray = some (s', o)) : LpInv s' := by
+  simp only [mergeFarm, Option.bind_eq_bind, Option.bind_eq_some_iff, Option.pure_def,
+    Option.some.injEq, Prod.mk.injEq] at h
+  obtain ⟨⟨s1, o1⟩, h1, rfl, _⟩ := h
+  have hi0 : LpInv (learnOpt s rew) :=
+    ⟨by rw [learnOpt_C, learnOpt_lp]; exact hi.c, FLe.congr (learnOpt_wf _ _) hi.fle⟩
+  exact mergeFarmCore_lpinv hi0 hok h1
 
 theorem incLp_lpinv {s s' : St} {w x : Nat} {t : LkTok} {o : Out}
     (hi : LpInv s) (h : incLp s w x t = some (s', o)) : LpInv s' := by
@@ -313,7 +323,7 @@ theorem step_lpinv {s s' : St} {op : Op} {o : Out} (hi : LpInv s) (hok : FarmOK 
   | exitFarm farm f x farming rew => exact exitFarm_lpinv (farm := farm) hi h
   | claim farm f x ft rew => exact claim_lpinv (farm := farm) hi hok h
   | mergeLp l t => exact mergeLp_lpinv hi h
-  | mergeFarm farm l mf t stray => exact mergeFarm_lpinv (farm := farm) hi hok h
+  | mergeFarm farm l mf t rew stray => exact mergeFarm_lpinv (farm := farm) hi hok h
   | incLp w x t => exact incLp_lpinv hi h
   | incFarm f x t => exact incFarm_lpinv hi h
 
